@@ -17,6 +17,9 @@ REPO = os.environ.get("VERIF_REPO", "/repo")
 # black_it is imported from the working tree, whatever is installed in the venv
 sys.path.insert(0, str(HOME))
 sys.path.insert(0, REPO)
+# processes started by the code under test (real joblib/loky workers of the C01 confirmation sample, subprocess
+# probes) must resolve black_it and the harness peers the same way
+os.environ["PYTHONPATH"] = os.pathsep.join([REPO, str(HOME)] + [p for p in os.environ.get("PYTHONPATH", "").split(os.pathsep) if p])
 
 
 def main() -> int:
